@@ -212,3 +212,29 @@ def compare_psd(ctx, row, got, exp, msg, sig=None, tol=None):
         return
     t = tol or (1e-4 if row == "parma" else 1e-6)
     ctx.vclose(got, exp, msg, tol=t, per_bin=PER_BIN.get(row), sig=sig)
+
+
+# ---- fixed grids (independent of the seed) -------------------------------------------------------------------------------
+# Random draws over the finite product rows x length class x parity x datatype are a coverage lottery: which combinations
+# are visited changes with every edit of a generator.  Each relational property therefore also runs its bodies on this fixed
+# grid: every row with mid-range parameters, four record lengths, real and complex AR(2)-like data.
+GRID_PARAMS = {"Periodogram": {"window": "hamming"}, "pcorrelogram": {"lag": 7, "window": "hann"}, "pburg": {"order": 5},
+               "pyule": {"order": 4}, "pcovar": {"order": 4}, "pmodcovar": {"order": 5}, "parma": {"P": 3, "Q": 2, "lag": 12},
+               "pma": {"Q": 3, "M": 10}, "pminvar": {"order": 6}, "pmusic": {"IP": 7, "NSIG": 2}, "pev": {"IP": 7, "NSIG": 2},
+               "mtm_unity": {"NW": 2.5, "k": 4}, "mtm_eigen": {"NW": 2.5, "k": 4}, "mtm_adapt": {"NW": 2.5, "k": 4}}
+GRID_N = (17, 40, 150, 301)
+
+
+def grid_x(N, cplx, salt):
+    return {"kind": "ar", "n": N, "complex": cplx, "seed": 4000 + 17 * N + salt, "pole": [0.7, 1.3]}
+
+
+def grid_points(rows=None, lengths=GRID_N):
+    """(row, params, N, complex, NFFT) for every row x length x datatype x NFFT in {N, N+3, 2N} (>= the row's minimum)"""
+    for row in (rows or ROWS):
+        for N in lengths:
+            if N > 150 and row.startswith("mtm_"):
+                continue
+            for cplx in (False, True):
+                for nfft in sorted({N, N + 3, 2 * N}):
+                    yield row, dict(GRID_PARAMS[row]), N, cplx, max(nfft, min_nfft(row, N, GRID_PARAMS[row]))
